@@ -204,7 +204,15 @@ def _Printed(out, marker):
   return res
 
 
+def ScratchTag():
+  """Suffix for scratch file names ($VERIF_SCRATCH_TAG), so that two runs of
+  the same check (e.g. a mutation run and a thorough run) do not share case
+  files / trace directories."""
+  return os.environ.get('VERIF_SCRATCH_TAG', '')
+
+
 def _WriteCfg(name, body):
+  name = name.replace('.cfg', ScratchTag() + '.cfg')
   path = os.path.join(common.SPEC, name)
   with open(path, 'w') as f:
     f.write(body)
@@ -250,7 +258,8 @@ def RunNoise(tag, tlc_cases, max_sites, simulate=None, depth=None, seed=None,
              timeout=900, workers=None):
   """Runs LLexNoise over the cases; returns (placements, TlcResult)."""
   d = common.BuildDir('trace', 'syntax')
-  path = WriteNdjson(os.path.join(d, 'cases_%s.ndjson' % tag), tlc_cases)
+  path = WriteNdjson(os.path.join(d, 'cases_%s%s.ndjson' % (tag, ScratchTag())),
+                     tlc_cases)
   cfg = _WriteCfg('LLexNoise_%s.cfg' % tag, (
       'SPECIFICATION Spec\nCONSTANTS\n  MaxSites = %d\n'
       'INVARIANT TokensPreserved\nINVARIANT CanonicalFaithful\n'
@@ -276,7 +285,8 @@ def RunFills(tag, max_len, timeout=900, simulate=None, seed=None):
 def RunCorrupt(tag, token_cases, simulate=None, seed=None, timeout=900):
   """token_cases: [{'id', 'toks': [[kind, text, glue]...]}]."""
   d = common.BuildDir('trace', 'syntax')
-  path = WriteNdjson(os.path.join(d, 'corrupt_%s.ndjson' % tag), token_cases)
+  path = WriteNdjson(os.path.join(d, 'corrupt_%s%s.ndjson' % (tag, ScratchTag())),
+                     token_cases)
   r = tlc.Run('LSyntaxCorrupt', simulate=simulate, seed=seed, coverage=True,
               timeout=timeout, tag='corrupt_' + tag,
               env={'CASE_FILE': path})
